@@ -21,6 +21,7 @@ var registry = map[string]entry{
 	"C04": {"exploration", props.C04},
 	"C05": {"exploration", props.C05},
 	"C06": {"exploration", props.C06},
+	"C07": {"exploration", props.C07},
 	"C08": {"exploration", props.C08},
 	"C09": {"exploration", props.C09},
 	"C10": {"fault_enumeration", props.C10},
